@@ -2155,6 +2155,12 @@ func (s *ImmuStore) DiscardPrecommittedTxsSince(txID uint64) (int, error) {
 		return 0, err
 	}
 
+	// an allowance granted for transactions that are being discarded must not
+	// carry over to whatever gets precommitted under the same ids afterwards
+	if s.useExternalCommitAllowance && s.commitAllowedUpToTxID > txID-1 {
+		s.commitAllowedUpToTxID = txID - 1
+	}
+
 	defer func() {
 		durablePrecommittedTxID, _, _ := s.durablePrecommitWHub.Status()
 		if durablePrecommittedTxID > s.inmemPrecommittedTxID {
